@@ -1692,6 +1692,8 @@ class ThroughputCalculator:
             )
         current = self.task_stats[task]
         count = current.total_count
+        # carried-over samples are part of current_samples; they are added again below if they still do not complete a bucket
+        current.unprocessed = []
         last_sample = None
         for sample in current_samples:
             last_sample = sample
